@@ -544,10 +544,16 @@ def _items(unit, ctx):
     plain = [a for a in G.addr_alphabet(ctx.seed)]
     kw = "object-group" if plat == "ios" else "addrgroup"
 
-    def build(adr):
+    def build(adr, mode=0):
         if adr.group:
-            return Address(f"{kw} {adr.group}", platform=plat,
-                           items=[m.spellings(plat)[0][0] for m in adr.members])
+            # members given as strings, as dictionaries, as objects, or as a MIXTURE of the three
+            texts = [m.spellings(plat)[0][0] for m in adr.members]
+            forms = []
+            for k, t in enumerate(texts):
+                kind = (0, k % 3, (k + 1) % 3, 2 - k % 3)[mode]
+                forms.append(t if kind == 0 else Address(t, platform=plat).data() if kind == 1
+                             else Address(t, platform=plat))
+            return Address(f"{kw} {adr.group}", platform=plat, items=forms)
         return Address(adr.spellings(plat)[0][0], platform=plat)
 
     for a, b in product(groups + plain, repeat=2):
@@ -557,6 +563,11 @@ def _items(unit, ctx):
         case = dict(kind="items", platform=plat, a=a.label, b=b.label)
         try:
             got = build(a).subnet_of(build(b))
+            for mode in (1, 2, 3):
+                if build(a, mode).subnet_of(build(b, mode)) != got:
+                    ctx.viol("Address.subnet_of(group items):answer_depends_on_how_members_were_given",
+                             dict(case, mode=mode), not got, got)
+                    break
         except (TypeError, ValueError):
             ctx.out("items_refused")
             continue
